@@ -2014,6 +2014,15 @@ class ReaderExtractor:
                 if not node.alts:
                     st["readers"][rvar].remove(node)
                 return
+            # `if reader: ... while reader: <reads> ...`: the guard only repeats the loop's own test (nothing reads from the reader
+            # outside that loop): the block is read as if the guard were not there
+            loops = [b for b in s.body if isinstance(b, ast.While) and isinstance(b.test, ast.Name) and b.test.id == rvar]
+            in_loops = {id(x) for w in loops for x in ast.walk(w)}
+            outside = [x for b in s.body for x in ast.walk(b) if isinstance(x, ast.Call) and id(x) not in in_loops and
+                       (self._read_call(x, st) is not None or any(isinstance(a, ast.Name) and a.id == rvar for a in list(x.args) + [k.value for k in x.keywords]))]
+            if loops and not outside and not s.orelse:
+                self._block(s.body, st)
+                return
             # reads with no tag test at all
             node = RNode("unchecked", line=s.lineno, func=fi.qualname)
             saved = st["readers"][rvar]
